@@ -1179,6 +1179,7 @@ type iterInfo struct {
 	m       string
 	dom0    string
 	visited string // heap var
+	count   string // heap var: number of entries yielded so far
 	str     bool
 }
 
@@ -1192,7 +1193,10 @@ func (g *Gen) rangeInstr(x *ssa.Range) Val {
 		g.heapDecl(vis, "(Array "+ks+" Bool)")
 		g.cur.store[vis] = fmt.Sprintf("((as const (Array %s Bool)) false)", ks)
 		d0 := g.define("dom0", "(Array "+ks+" Bool)", fmt.Sprintf("(ite (= %s 0) ((as const (Array %s Bool)) false) (select %s %s))", m.S, ks, g.heapGet(g.cur, dom), m.S))
-		g.iters[x] = &iterInfo{mt: mt, m: m.S, dom0: d0, visited: vis}
+		cnt := fmt.Sprintf("iter.%d.count", g.nIter)
+		g.heapDecl(cnt, "Int")
+		g.cur.store[cnt] = "0"
+		g.iters[x] = &iterInfo{mt: mt, m: m.S, dom0: d0, visited: vis, count: cnt}
 		g.iterOrd = append(g.iterOrd, x)
 		return Val{T: x.Type(), S: "0"}
 	}
@@ -1221,5 +1225,15 @@ func (g *Gen) nextInstr(x *ssa.Next) Val {
 	v := g.define("next.v", g.sortOf(it.mt.Elem()), fmt.Sprintf("(select (select %s %s) %s)", g.heapGet(g.cur, val), it.m, k.S))
 	g.assume(g.rangeOf(it.mt.Elem(), v, g.cur))
 	g.heapSet(g.cur, it.visited, fmt.Sprintf("(ite %s (store %s %s true) %s)", ok, vis, k.S, vis))
+	if it.count != "" {
+		c := g.heapGet(g.cur, it.count)
+		g.heapSet(g.cur, it.count, fmt.Sprintf("(ite %s (+ %s 1) %s)", ok, c, c))
+		g.assume(fmt.Sprintf("(>= %s 0)", c))
+		if g.mode == ModeInt {
+			// every yielded entry is a distinct key of the map as it was when the loop started
+			card := g.mapCard(it.mt)
+			g.assume(fmt.Sprintf("(and (=> %s (< %s (%s %s))) (<= %s (%s %s)) (<= 0 (%s %s)))", ok, c, card, it.dom0, c, card, it.dom0, card, it.dom0))
+		}
+	}
 	return Val{T: x.Type(), Tuple: []Val{{T: types.Typ[types.Bool], S: ok}, k, {T: it.mt.Elem(), S: v}}}
 }
